@@ -91,15 +91,24 @@ structure GbSt where
   taxid : Int := 1
   deriving Repr, DecidableEq
 
-def gbLOCUS := str "LOCUS       "
-def gbDEFINITION := str "DEFINITION  "
-def gbCONT := str "            "
-def gbSOURCE := str "SOURCE      "
-def gbFEATURES := str "FEATURES    "
-def gbORIGIN := str "ORIGIN"
-def gbCONTIG := str "CONTIG"
-def gbXREF := str "                     /db_xref=\"taxon:"
-def slashes := str "//"
+/-- `LOCUS       ` -/
+def gbLOCUS : Seq := [76, 79, 67, 85, 83, 32, 32, 32, 32, 32, 32, 32]
+/-- `DEFINITION  ` -/
+def gbDEFINITION : Seq := [68, 69, 70, 73, 78, 73, 84, 73, 79, 78, 32, 32]
+/-- `            ` -/
+def gbCONT : Seq := [32, 32, 32, 32, 32, 32, 32, 32, 32, 32, 32, 32]
+/-- `SOURCE      ` -/
+def gbSOURCE : Seq := [83, 79, 85, 82, 67, 69, 32, 32, 32, 32, 32, 32]
+/-- `FEATURES    ` -/
+def gbFEATURES : Seq := [70, 69, 65, 84, 85, 82, 69, 83, 32, 32, 32, 32]
+/-- `ORIGIN` -/
+def gbORIGIN : Seq := [79, 82, 73, 71, 73, 78]
+/-- `CONTIG` -/
+def gbCONTIG : Seq := [67, 79, 78, 84, 73, 71]
+/-- `                     /db_xref="taxon:` -/
+def gbXREF : Seq := [32, 32, 32, 32, 32, 32, 32, 32, 32, 32, 32, 32, 32, 32, 32, 32, 32, 32, 32, 32, 32, 47, 100, 98, 95, 120, 114, 101, 102, 61, 34, 116, 97, 120, 111, 110, 58]
+/-- `//` -/
+def slashes : Seq := [47, 47]
 
 def flatRec (id defn sq : Seq) (taxid : Int) (sci feat : Seq) : Rec :=
   { id := id, defn := defn, seq := sq.map lower, flat := some (taxid, sci, feat) }
@@ -174,14 +183,22 @@ structure EmSt where
   taxid : Int := 1
   deriving Repr, DecidableEq
 
-def emID := str "ID   "
-def emOS := str "OS   "
-def emDE := str "DE   "
-def emFH := str "FH   "
-def emFHalone := str "FH"
-def emFT := str "FT   "
-def emSEQ := str "     "
-def emXREF := str "FT                   /db_xref=\"taxon:"
+/-- `ID   ` -/
+def emID : Seq := [73, 68, 32, 32, 32]
+/-- `OS   ` -/
+def emOS : Seq := [79, 83, 32, 32, 32]
+/-- `DE   ` -/
+def emDE : Seq := [68, 69, 32, 32, 32]
+/-- `FH   ` -/
+def emFH : Seq := [70, 72, 32, 32, 32]
+/-- `FH` -/
+def emFHalone : Seq := [70, 72]
+/-- `FT   ` -/
+def emFT : Seq := [70, 84, 32, 32, 32]
+/-- `     ` -/
+def emSEQ : Seq := [32, 32, 32, 32, 32]
+/-- `FT                   /db_xref="taxon:` -/
+def emXREF : Seq := [70, 84, 32, 32, 32, 32, 32, 32, 32, 32, 32, 32, 32, 32, 32, 32, 32, 32, 32, 32, 32, 47, 100, 98, 95, 120, 114, 101, 102, 61, 34, 116, 97, 120, 111, 110, 58]
 
 /-- one turn of `for scanner.Scan() { switch { … } }` (no fatal path) -/
 def emLine (withFeat : Bool) (s : EmSt) (line : Seq) : EmSt × Option Rec :=
